@@ -326,6 +326,24 @@ ADDENDUM4 = {
 for _k, _v in ADDENDUM4.items():
     ADDENDUM[_k] = ADDENDUM.get(_k, '') + _v
 
+# wave 5 (session 4)
+ADDENDUM5 = {
+    'C04': " ADDED (wave 5): Proofs/PeriodicInsertWrap.v -- a knot given ANYWHERE on the real line is inserted as its image in the base period (wrap_knot_spec; basis_insert_knot b x = basis_insert_knot b (wrap x)); all periodic insertion theorems (basis level, map preservation, through obj_eval, lists) without the hypothesis start <= x < end.",
+    'C12': " ADDED: Model/IdenticalFix.v models the REPAIRED routine (fix d42b8fc: the seam of a periodic direction is visited once); Proofs/IdenticalFixProofs.v: it equals the old routine on every input the earlier theorems cover (all of them re-stated for it), and WITHOUT the equal-seam-multiplicity hypothesis it succeeds with equal knot lists (seam multiplicity = the maximum) and preserves both maps; old_identical_seam_defect / repaired_identical_seam are the two outcomes on Q; the runner executes the repaired model.",
+    'C15': " ADDED (wave 5): Proofs/EdgeLoopBridge.v -- obj_reverse of a non-periodic curve reverses its control net, hence the abstract loop search IS the search on curve objects (soundness/completeness restated for curve objects, evaluation of each arranged curve); the Coons function of the arranged curves has them as boundary (also homogeneous coordinates); a net-level Coons patch with the input nets as boundary rows/columns (its identity with the library's net is checked numerically only).",
+    'C17': " ADDED (wave 5): Model/Matches.v, Proofs/MatchesProofs.v -- BSplineBasis.matches transcribed (incl. numpy's default rtol 1e-5 and the reversal of the FIRST operand): specification, invariance under positive affine maps of either knot vector, reflexivity, exact threshold for a moved interior knot; equals the matcher used by the orientation model (orient_basis_matches_eq).",
+}
+for _k, _v in ADDENDUM5.items():
+    ADDENDUM[_k] = ADDENDUM.get(_k, '') + _v
+
+# wave 6 (session 4)
+ADDENDUM6 = {
+    'C14': " ADDED (wave 6): Model/Rebuild.v, Proofs/RebuildProofs.v -- Curve.rebuild: the uniform open basis mapped onto the curve's own interval has domain exactly [t0, t1] for ANY t0 (end multiplicities p, interior knots t0 + (t1-t0) i/(n-p+1)), the result is a non-periodic order-p curve with n control points, it interpolates the curve at the Greville points and reproduces curves already in the space.",
+    'C16': " ADDED (wave 6): Model/Frenet.v, Proofs/FrenetProofs.v -- tangent, normal, binormal as the code computes them are an orthonormal right-handed frame at every point with non-zero velocity and either curvature or vanishing acceleration; the two-case helper direction for straight legs is never parallel to the velocity; the frame at a parameter depends only on the derivatives there (no single helper works for a whole call: counterexample).",
+}
+for _k, _v in ADDENDUM6.items():
+    ADDENDUM[_k] = ADDENDUM.get(_k, '') + _v
+
 PENDING_REASON = "not claimed in this revision: model/theorems for this property are still being built (see DESIGN.md section 8 for the plan)"
 
 
